@@ -1,4 +1,5 @@
 import Model.C15
+import Model.C15Cas
 /-! Oracle handlers for C15: model output (correspondence) and judge (property on impl output). -/
 namespace OracleC15
 open Common Ring C14 C15
@@ -92,8 +93,10 @@ structure Meta where
   tvis : Option Int := none
   /-- `W`: poll and registration CAS with nothing in between (the poll reads the ring the CAS is applied to) -/
   pollHere : Bool := false
+  /-- third "@" part: `E`: the instant (ms) at which the call began; `R`/`O`: the handler's clock in ms -/
+  ms : Option Int := none
 
-def parseOpMeta (cfgs : List Cfg) (s : String) : Option (Op × Meta) :=
+partial def parseOpMeta (cfgs : List Cfg) (s : String) : Option (Op × Meta) :=
   match s.splitOn "@" with
   | [body, br] =>
     match br.splitOn ":" with
@@ -104,6 +107,9 @@ def parseOpMeta (cfgs : List Cfg) (s : String) : Option (Op × Meta) :=
         | _ => none
       pure (op, { t0 := ← a.toInt?, t1 := ← b.toInt?, tvis := tvis, pollHere := body.startsWith "W," })
     | _ => none
+  | [body, br, ms] => do
+    let (op, m) ← parseOpMeta cfgs (body ++ "@" ++ br)
+    pure (op, { m with ms := some (← ms.toInt?) })
   | _ => none
 
 /-- does the operation stamp `time.Now()` (as opposed to the virtual clock handed to the reconcile handlers)? -/
@@ -123,7 +129,8 @@ def legalEdge (a b : Nat) : Bool := (a, b) == (1, 2) || (a, b) == (1, 3) || (a, 
 
 /-- judge one recorded step `old --op--> new`. `bounds`: for owners registered by a delayed wait, the
 earliest second at which that registration can truly have happened (the partition was not visible before). -/
-def judgeStep (old new : PDesc) (op : Op) (m : Meta) (bounds : List (String × Int)) : List String := Id.run do
+def judgeStep (old new : PDesc) (op : Op) (m : Meta) (bounds : List (String × Int))
+    (inactSince : List (Int × Int) := []) : List String := Id.run do
   let mut bad : List String := []
   -- timestamps written by this call lie inside the call, and a registration is not dated before the
   -- partition became visible to the registering lifecycler
@@ -161,8 +168,18 @@ def judgeStep (old new : PDesc) (op : Op) (m : Meta) (bounds : List (String × I
       match op with
       | .reconcileOthers c now =>
         let owners := (old.owners.filter (·.partition == p.id)).length
-        if !(p.id != c.pid && p.state == 3 && p.stateTs < now - c.deleteAfter && owners == 0 && c.deleteAfter > 0) then
-          bad := "deletion-guard" :: bad
+        match m.ms with
+        | none =>
+          if !(p.id != c.pid && p.state == 3 && p.stateTs < now - c.deleteAfter && owners == 0 && c.deleteAfter > 0) then
+            bad := "deletion-guard" :: bad
+        | some nowMs =>
+          -- clock with a sub-second part: "inactive LONGER than the delay" is about the instant the state was set,
+          -- which is not before the stored (truncated) second and not before the start of the call that set it
+          if !(p.id != c.pid && p.state == 3 && p.stateTs * 1000 < nowMs - c.deleteAfter * 1000 && owners == 0 && c.deleteAfter > 0) then
+            bad := "deletion-guard" :: bad
+          match inactSince.find? (·.1 == p.id) with
+          | some (_, t0ms) => if !(nowMs - t0ms > c.deleteAfter * 1000) then bad := "deleted-before-delay-elapsed" :: bad
+          | none => pure ()
       | _ => bad := "deleted-by-non-reconcile" :: bad
   for q in new.parts do
     if (old.parts.find? (·.id == q.id)).isNone then
@@ -194,8 +211,11 @@ def handleHist (f : List String) : String × String × String :=
           let op := opm.1
           -- a wait whose poll is part of the step gives up (context error) while the partition does not exist
           let blocked := match op with | .wait c _ => opm.2.pollHere && !pollSees acc.1 c | _ => false
-          let r := if blocked then .error .ctx else step acc.1 op
-          let d' := if blocked then acc.1 else C15.apply acc.1 op
+          let r := if blocked then .error .ctx else match op, opm.2.ms with
+            | .reconcileOthers c now, some ms => if unixSec ms == now then reconcileOthersMs acc.1 c ms else .error .ctx
+            | .reconcileOwned c now, some ms => if unixSec ms == now then reconcileOwnedMs acc.1 c ms else .error .ctx
+            | _, _ => step acc.1 op
+          let d' := if blocked then acc.1 else match r with | .ok (some x) => x | _ => acc.1
           (d', acc.2 ++ [resName op r ++ "@" ++ showPDescOpt true d'])) (d0, [])
         let mStr := "#".intercalate mOut
         let diff := if mStr == obs then "-" else
@@ -205,20 +225,25 @@ def handleHist (f : List String) : String × String × String :=
         let vers := d0 :: obl.map (·.2.2)
         let steps := (vers.zip (vers.drop 1)).zip opl
         let (judge, _) := ((vers.zip (vers.drop 1)).zip oplm).foldl
-          (fun (acc : List String × List (String × Int)) (x : (PDesc × PDesc) × (Op × Meta)) =>
+          (fun (acc : List String × List (String × Int) × List (Int × Int)) (x : (PDesc × PDesc) × (Op × Meta)) =>
             let ((a, b), (op, m)) := x
-            let j := judgeStep a b op m acc.2
+            let j := judgeStep a b op m acc.2.1 acc.2.2
             let bounds := match op, m.tvis with
-              | .wait c _, some tv => (c.ownerID, tv) :: acc.2
-              | _, _ => acc.2
-            (acc.1 ++ j, bounds)) ([], [])
+              | .wait c _, some tv => (c.ownerID, tv) :: acc.2.1
+              | _, _ => acc.2.1
+            -- partitions whose state this step changed: the change did not happen before the call began
+            let since := match m.ms with
+              | some t0ms => (b.parts.filter fun q => (a.parts.find? (·.id == q.id)).any (·.state != q.state)).map (fun q => (q.id, t0ms)) ++ acc.2.2
+              | none => (acc.2.2.filter fun (pid, _) => !(b.parts.any fun q => q.id == pid && (a.parts.find? (·.id == q.id)).any (·.state != q.state)))
+            (acc.1 ++ j, bounds, since)) ([], [], [])
         let delayed := oplm.any (·.2.tvis.isSome)
         let changed := (steps.filter fun ((a, b), _) => a != b).length
         let promo := steps.any fun ((a, b), op) => match op with | .reconcileOwned .. => a != b | _ => false
         let del := steps.any fun ((a, b), _) => a.parts.length > b.parts.length
         let lockedErr := obl.any (·.1 == "locked") || obl.any (·.1 == "failed")
         let notAllowed := obl.any (·.1 == "stateChangeNotAllowed")
-        let tags := s!"hist ops={bucket opl.length} lcs={cfgs.length} changed={bucket changed} promo={promo} del={del} failed={lockedErr} notAllowed={notAllowed} delayedWait={delayed}"
+        let subsec := oplm.any fun (op, m) => isReconcile op && m.ms.any (· % 1000 != 0)
+        let tags := s!"hist subsec={subsec} ops={bucket opl.length} lcs={cfgs.length} changed={bucket changed} promo={promo} del={del} failed={lockedErr} notAllowed={notAllowed} delayedWait={delayed}"
         (diff, joinReasons judge, tags)
       | _, _ => ("bad-ops", "-", "-")
     | _, _ => ("bad-input", "-", "-")
@@ -404,13 +429,36 @@ def handleMrepl (f : List String) : String × String × String :=
     | _, _, _ => ("bad-input", "-", "-")
   | _ => ("bad-fields", "-", "-")
 
+/-- the racing-store lines once more through the versioned-cell model: the handler's CAS (10 attempts) with the
+conflicting write landing during its first attempt must end in the recorded result and ring. -/
+def casDiff (f : List String) : String :=
+  match f with
+  | [init, lcs, ops, obs] =>
+    match parsePDesc init, (lcs.splitOn ";").mapM parseCfg with
+    | some d0, some cfgs =>
+      match (ops.splitOn ";").mapM (parseOpMeta cfgs), (obs.splitOn "#").getLast? with
+      | some [(w, _), (h, _)], some last =>
+        if isReconcile h then
+          let (cell, res) := casRun (fun d => step d h) 10 ⟨d0, 0⟩ [[w]]
+          let rs := match res with | .done r => resName h r | .exhausted => "failed"
+          let m := rs ++ "@" ++ showPDescOpt true cell.val
+          if m == last then "-" else "casRun=" ++ m
+        else "-"
+      | _, _ => "-"
+    | _, _ => "-"
+  | _ => "-"
+
 def handle (cmd : String) (f : List String) : String × String × String :=
   if cmd == "C15.route" then handleRoute f
   else if cmd == "C15.hist" then handleHist f
   else if cmd == "C15.loop" then handleLoop f
+  else if cmd == "C15.sub" then
+    let (d, j, t) := handleHist f
+    (d, j, "subsecond-clock " ++ t)
   else if cmd == "C15.cas" then
     let (d, j, t) := handleHist f
-    (d, j, "cas-retry " ++ t)
+    let d2 := casDiff f
+    ((if d == "-" then d2 else d), j, "cas-retry " ++ t)
   else if cmd == "C15.repl" then handleRepl f
   else if cmd == "C15.mrepl" then handleMrepl f
   else ("unknown-cmd", "-", "-")
